@@ -4,6 +4,7 @@
   crashes at ANY commit boundary (event `crash`, any number, anywhere — quiet or not).
 -/
 import MW.Lemmas.Deepen3Start
+import MW.Lemmas.Deepen3Pend
 namespace MW.Lemmas.Deepen3
 open MW MW.Model.Ledger MW.Model.Persist MW.Spec.Persist MW.Spec.Chain MW.Spec.Books MW.Lemmas.Ledger
   MW.Lemmas.PersistOp MW.Lemmas.PersistFault MW.Lemmas.PersistCrash
@@ -37,6 +38,118 @@ theorem JQ_crash {st : Static} {G : Block} (E : StaticOK st G) (n : Nat) {x : Sy
     show readyB (Model.Persist.crash (envAt st x.chain) n x.P).P.led w = true
     rw [readyB_of_readyWallets hSI.ready w]; exact hK.ready w hw
 
+-- ------------------------------------------------------------------ unconfirmed transactions
+
+theorem minedEq_addUnminedCredits (s s' : Store) (tr : TxRec) (h : addUnminedCredits s tr = .ok s') : MinedEq s s' := by
+  unfold addUnminedCredits at h
+  simp only [bind, Except.bind, pure, Except.pure] at h
+  split at h
+  · cases h
+  · rename_i s1 hs1
+    cases h
+    have h1 : MinedEq s s1 := by
+      have : ∀ (l : List Rel) (a b : Store), l.foldlM (addUnminedCredit tr) a = .ok b → MinedEq a b := by
+        intro l
+        induction l with
+        | nil => intro a b hab; cases hab; exact MinedEq.refl _
+        | cons r l ih =>
+          intro a b hab
+          rw [List.foldlM_cons] at hab
+          simp only [bind, Except.bind] at hab
+          split at hab
+          · cases hab
+          · rename_i a1 ha1
+            have hstep : MinedEq a a1 := by
+              unfold addUnminedCredit at ha1
+              split at ha1
+              · cases ha1
+              · split at ha1
+                · cases ha1
+                · cases ha1; exact ⟨rfl, rfl, rfl, rfl, rfl, rfl, rfl, rfl, rfl, rfl, rfl⟩
+            exact hstep.trans (ih _ _ hab)
+      exact this _ _ _ hs1
+    refine h1.trans ?_
+    apply minedEq_foldl
+    intro s0 rel _
+    exact ⟨rfl, rfl, rfl, rfl, rfl, rfl, rfl, rfl, rfl, rfl, rfl⟩
+
+/-- insertMemPoolTx + addUnminedCredits write pending buckets only -/
+theorem minedEq_addRelevantUnmined (s s' : Store) (tr : TxRec) (h : addRelevantUnmined s tr = .ok s') : MinedEq s s' := by
+  unfold addRelevantUnmined at h
+  split at h
+  · cases h
+  · split at h
+    · split at h
+      · cases h; exact MinedEq.refl _
+      · exact minedEq_addUnminedCredits _ _ _ h
+    · dsimp only at h
+      have h0 : MinedEq s (insertUnminedInputs { s with pending := AMap.put s.pending tr.tx.id tr.tx } tr) :=
+        MinedEq.trans (b := { s with pending := AMap.put s.pending tr.tx.id tr.tx })
+          ⟨rfl, rfl, rfl, rfl, rfl, rfl, rfl, rfl, rfl, rfl, rfl⟩ (minedEq_insertUnminedInputs _ tr)
+      split at h
+      · cases h; exact h0
+      · exact h0.trans (minedEq_addUnminedCredits _ _ _ h)
+
+/-- the unconfirmed path writes pending buckets only; the keystore buckets are untouched -/
+theorem recvTx_mined (env : Model.Persist.Env) (nR nW : Nat) (tx : Tx) (P : PStore) (V : PVol) :
+    (Model.Persist.recvTx env nR nW none tx P V).P.ks = P.ks ∧
+    MinedEq P.led (Model.Persist.recvTx env nR nW none tx P V).P.led := by
+  unfold Model.Persist.recvTx
+  simp only [Bool.false_eq_true, if_false]
+  by_cases hm : V.led.mempool.contains tx.id = true
+  · rw [if_pos hm]; exact ⟨rfl, MinedEq.refl _⟩
+  · rw [if_neg hm]
+    cases hf : filterTxRel (ctxOf env V) P.led tx false [] (readyWallets P.led (ctxOf env V).wallets) with
+    | error e => exact ⟨rfl, MinedEq.refl _⟩
+    | ok o =>
+      cases o with
+      | none => exact ⟨rfl, MinedEq.refl _⟩
+      | some tr =>
+        simp only [Option.map]
+        rw [run_single_none nW _ (opAddUnmined nW tr) rfl P V]
+        cases ha : addRelevantUnmined P.led tr with
+        | error e => simp [opAddUnmined, ha]; exact MinedEq.refl _
+        | ok s' => simp [opAddUnmined, ha]; exact minedEq_addRelevantUnmined _ _ _ ha
+
+theorem inv_minedEq {c : Ctx} {s s' : Store} {S : List Block} (h : MinedEq s s') (hI : Ledger.Inv c s S) :
+    Ledger.Inv c s' S := by
+  refine ⟨⟨?_, ?_, ?_, ?_, ?_, ?_⟩, ?_, ?_, ?_⟩
+  · intro w tx idx; rw [h.unspent]; exact hI.agree.unspent w tx idx
+  · intro k; rw [h.credits]; exact hI.agree.credits k
+  · intro k; rw [h.debits]; exact hI.agree.debits k
+  · intro k; rw [h.game]; exact hI.agree.game k
+  · intro k; rw [h.txrecs]; exact hI.agree.txrecs k
+  · intro k; rw [h.blocks]; exact hI.agree.blocks k
+  · intro w hw
+    rw [h.balance]
+    apply hI.bal w
+    rw [← readyWallets_congr h.status]; exact hw
+  · intro k; rw [h.sync]; exact hI.sync k
+  · rw [h.syncedTo]; exact hI.syncedTo
+
+/-- AN UNCONFIRMED TRANSACTION — delivered at any time, new or seen before, relevant or not — keeps the invariant:
+    it writes pending buckets (and the volatile seen-set) only -/
+theorem JQ_recvTx {st : Static} {G : Block} (n : Nat) (cr : Bool) {x : SysQ} {k : Skel} (tx : Tx) (hJ : JQ st G x k) :
+    JQ st G (stepQ st n cr x (.recvTx tx)) k := by
+  obtain ⟨hc, hks, hkeys, ⟨S, hJS, c, hcm, hSc⟩, hN, hcur, hK⟩ := hJ
+  obtain ⟨hI, hv, hS, hAR, hne, hq, hq0, hq1⟩ := hJS
+  obtain ⟨m1, m2⟩ := recvTx_mined (envAt st x.chain) n n tx x.P x.V
+  obtain ⟨f1, f2⟩ := recvTx_frame (envAt st x.chain) n n tx x.P x.V
+  have hr := readyWallets_congr m2.status
+  have h1 : stepQ st n cr x (.recvTx tx) =
+      { x with P := (Model.Persist.recvTx (envAt st x.chain) n n none tx x.P x.V).P,
+               V := (Model.Persist.recvTx (envAt st x.chain) n n none tx x.P x.V).V } := rfl
+  rw [h1]
+  refine ⟨hc, m1.trans hks, f2.trans hkeys, ⟨S, ⟨inv_minedEq m2 hI, f1.trans hv, hS, ?_, ?_, hq, hq0, hq1⟩, c, hcm, hSc⟩,
+    hN, hcur, hK.nodupW, hK.nodupA, ?_⟩
+  · show AllReady (ownOf k.ks) (readyWallets (Model.Persist.recvTx (envAt st x.chain) n n none tx x.P x.V).P.led (walletsOf k.ks))
+    rw [hr]; exact hAR
+  · show (readyWallets (Model.Persist.recvTx (envAt st x.chain) n n none tx x.P x.V).P.led (walletsOf k.ks)).isEmpty = false
+    rw [hr]; exact hne
+  · intro w hw
+    show readyB (Model.Persist.recvTx (envAt st x.chain) n n none tx x.P x.V).P.led w = true
+    rw [readyB_of_readyWallets hr w]; exact hK.ready w hw
+
 /-- EVERY EVENT keeps the invariant, in the crashing run and in the run that never stops -/
 theorem JQ_step {st : Static} {G : Block} (E : StaticOK st G) (n : Nat) (cr : Bool) {x : SysQ} {k : Skel} (ev : EvQ)
     (hJ : JQ st G x k) (hok : StepOK st G k ev) : JQ st G (stepQ st n cr x ev) (skStep st k ev) := by
@@ -46,6 +159,7 @@ theorem JQ_step {st : Static} {G : Block} (E : StaticOK st G) (n : Nat) (cr : Bo
   | handle => exact JQ_nodeOrHandle E n cr .handle .handle (Or.inl ⟨rfl, rfl⟩) hJ hok
   | create w => exact JQ_create n cr w hJ
   | newAddr w stk => exact JQ_newAddr n cr w stk hJ hok
+  | recvTx tx => exact JQ_recvTx n cr tx hJ
   | crash =>
     cases cr with
     | false => exact hJ
@@ -100,6 +214,7 @@ theorem stepQ_queue (st : Static) (n : Nat) (cr : Bool) (x : SysQ) (ev : EvQ) :
   | handle => cases hq : x.queue <;> simp only [stepQ, hq, List.tail]
   | create w => rfl
   | newAddr w stk => simp only [stepQ]; cases useWallet x.P x.V w <;> rfl
+  | recvTx tx => rfl
   | crash => cases cr <;> rfl
 
 theorem suffix_tail {α : Type} {l₁ l₂ : List α} (h : l₁ <:+ l₂) : l₁.tail <:+ l₂.tail := by
@@ -125,6 +240,7 @@ theorem queue_suffix (st : Static) (n : Nat) : ∀ (evs : List EvQ) (x1 x2 : Sys
     | handle => exact suffix_tail h
     | create w => exact h
     | newAddr w stk => exact h
+    | recvTx tx => exact h
     | crash => exact List.nil_suffix
 
 
